@@ -44,6 +44,7 @@ fn graph_hash(c: &CaseSpec) -> u64 {
     for f in &c.graph.fns {
         h.u64(f.reads as u64);
         h.u64(f.writes as u64);
+        h.u8(f.style);
     }
     for e in &c.graph.calls {
         h.usize(e.from);
